@@ -230,6 +230,9 @@ def scan(prog, entry_defs):
 # ------------------------------------------------------------------------------------------------
 # Discharges D1..D9: idioms under which a site cannot fire.  Each returns a short reason or None.
 
+# analysis context set by analyse(): the program (ADT sizes) and binrw `count` facts {(adt, vec_field): count_expr}
+ACTX = {"prog": None, "counts": {}}
+
 INT_BITS = {"u8": 8, "i8": 8, "u16": 16, "i16": 16, "u32": 32, "i32": 32, "u64": 64, "i64": 64, "u128": 128, "i128": 128, "usize": 64, "isize": 64}
 
 
@@ -259,6 +262,12 @@ class BodyIndex:
         if p is None:
             return ("unknown",)
         if p["p"]:
+            if len(p["p"]) == 1 and isinstance(p["p"][0], dict) and p["p"][0].get("f") == 0:
+                d0 = self.single_def(p["l"])
+                if d0 and d0[0] == "assign" and d0[3]["rv"]["k"] == "bin" and d0[3]["rv"]["op"].endswith("WithOverflow"):
+                    v = self._fold(d0[3]["rv"], depth)
+                    if v is not None:
+                        return ("const", v)
             return ("place", p)
         l = p["l"]
         if 1 <= l <= self.body.argc:
@@ -276,10 +285,498 @@ class BodyIndex:
             if inner[0] == "const":
                 return inner
             return ("cast", rv, d[1], inner)
+        if rv["k"] == "bin":
+            v = self._fold(rv, depth)
+            if v is not None:
+                return ("const", v)
         return ("rv", rv, d[1])
+
+    def _fold(self, rv, depth):
+        """Value of Add/Sub/Mul on two operands that resolve to non-negative constants (no wrap below 2^64)."""
+        op_ = rv["op"].replace("WithOverflow", "")
+        if op_ not in ("Add", "Sub", "Mul"):
+            return None
+        a, b = self.resolve(rv["a"], depth + 1), self.resolve(rv["b"], depth + 1)
+        if a[0] != "const" or b[0] != "const" or a[1] < 0 or b[1] < 0:
+            return None
+        v = a[1] + b[1] if op_ == "Add" else a[1] * b[1] if op_ == "Mul" else a[1] - b[1]
+        return v if 0 <= v < (1 << 31) else None
 
     def callee(self, t):
         return t.get("res") or (t["f"].get("k") or {}).get("fn") or ""
+
+
+PRIM_SIZE = {"u8": 1, "i8": 1, "bool": 1, "u16": 2, "i16": 2, "u32": 4, "i32": 4, "f32": 4, "u64": 8, "i64": 8, "f64": 8, "u128": 16, "i128": 16, "usize": 8, "isize": 8, "char": 4}
+
+
+def type_size(ty):
+    """Size in bytes of a primitive or local ADT type (compiler layout facts), or None."""
+    if ty in PRIM_SIZE:
+        return PRIM_SIZE[ty]
+    prog = ACTX.get("prog")
+    a = prog.adts.get(ty) if prog is not None else None
+    if a and a.get("size"):
+        return int(a["size"])
+    return None
+
+
+def const_slice_len(ix, op, depth=0):
+    """Constant length of the slice an operand refers to: an unsized array reference, or a constant sub-range."""
+    if depth > 8:
+        return None
+    p = op_place(op)
+    if p is None or p["p"]:
+        return None
+    d = ix.single_def(p["l"])
+    if not d:
+        return None
+    if d[0] == "assign":
+        rv = d[3]["rv"]
+        if rv["k"] == "cast" and rv["ck"].startswith("PointerCoercion"):
+            m = re.match(r"^&(mut )?\[[^;\]]+; (\d+)\]$", rv.get("from", ""))
+            return int(m.group(2)) if m else None
+        if rv["k"] == "use":
+            return const_slice_len(ix, rv["a"], depth + 1)
+        if rv["k"] == "ref" and rv["p"]["p"] == ["*"]:
+            return const_slice_len(ix, {"c": {"l": rv["p"]["l"], "p": [], "ty": ""}}, depth + 1)
+        return None
+    c = ix.callee(d[3])
+    if (c.endswith("::index") or c.endswith("::index_mut")) and len(d[3]["args"]) == 2:
+        rg = ix.resolve(d[3]["args"][1])
+        if rg[0] == "rv" and rg[1]["k"] == "agg":
+            adt = rg[1].get("adt", "")
+            o = [ix.resolve(x) for x in rg[1]["ops"]]
+            if adt.endswith("ops::Range") and len(o) == 2 and o[0][0] == "const" and o[1][0] == "const" and o[1][1] >= o[0][1]:
+                return o[1][1] - o[0][1]
+            if adt.endswith("ops::RangeTo") and len(o) == 1 and o[0][0] == "const":
+                return o[0][1]
+    return None
+
+
+def widening_leaf(ix, op, depth=0, signed_ok=False):
+    """Canonical key of an operand that is a place / constant seen through copies and value-preserving (unsigned
+    widening) casts only; None otherwise.  Two operands with the same key hold the same integer value."""
+    if depth > 8:
+        return None
+    v = const_int(op)
+    if v is not None:
+        return ("c", v)
+    p = op_place(op)
+    if p is None:
+        return None
+    if p["p"]:
+        return ("pl", place_desc(ix, op))
+    l = p["l"]
+    if 1 <= l <= ix.body.argc:
+        return ("pl", f"arg{l}")
+    d = ix.single_def(l)
+    if d is None or d[0] == "call":
+        return ("pl", f"_{l}")
+    rv = d[3]["rv"]
+    if rv["k"] == "use":
+        return widening_leaf(ix, rv["a"], depth + 1, signed_ok)
+    if rv["k"] == "cast" and rv["ck"] == "IntToInt":
+        fb, tb = INT_BITS.get(rv.get("from")), INT_BITS.get(rv.get("to"))
+        if fb and tb and rv["from"].startswith("u") and (tb > fb or (tb == fb and rv["to"].startswith("u"))):
+            return widening_leaf(ix, rv["a"], depth + 1, signed_ok)
+        if fb and tb and signed_ok and tb >= fb:
+            # value known to be non-negative by the caller (member of a range starting at a constant >= 0)
+            return widening_leaf(ix, rv["a"], depth + 1, signed_ok)
+        return None
+    return ("pl", f"_{l}")
+
+
+def loop_var(ix, op, depth=0):
+    """range_loop_var seen through value-preserving casts of the induction variable (signed casts are value
+    preserving when the range starts at a constant >= 0: every value of the variable is then non-negative)."""
+    rl = range_loop_var(ix, op)
+    if rl or depth > 4:
+        return rl
+    p = op_place(op)
+    if p is None or p["p"]:
+        return None
+    d = ix.single_def(p["l"])
+    if d and d[0] == "assign":
+        rv = d[3]["rv"]
+        if rv["k"] == "use":
+            return loop_var(ix, rv["a"], depth + 1)
+        if rv["k"] == "cast" and rv["ck"] == "IntToInt":
+            fb, tb = INT_BITS.get(rv.get("from")), INT_BITS.get(rv.get("to"))
+            if fb and tb and tb >= fb:
+                rl = loop_var(ix, rv["a"], depth + 1)
+                if rl and (rv["from"].startswith("u") or ((const_int(rl[0]) or -1) >= 0 or const_int(rl[0]) == 0)):
+                    return rl
+    return None
+
+
+LEN_KEEPING = ("::into_iter", "::index_mut", "::index", "::deref_mut", "::deref", "::iter_mut", "::iter", "::as_mut_slice", "::as_slice", "::len", "::is_empty", "::fill", "::copy_from_slice", "::clone_from_slice", "::get_mut", "::get", "::swap", "::sort", "::sort_by", "::sort_by_key", "::reverse", "::first", "::last", "::contains", "::to_vec", "::clone")
+
+
+def place_prefix_touched(ix, local, proj_names, allow_calls=LEN_KEEPING):
+    """Flow-insensitive: is the place `local.proj...` (or a prefix of it) ever re-assigned, or mutably borrowed and
+    handed to anything but a length-preserving method?  proj_names: list of field names ([] = the whole local)."""
+    body = ix.body
+
+    def names(pl):
+        return [pr.get("n", pr.get("f")) for pr in pl["p"] if isinstance(pr, dict) and "f" in pr]
+
+    def covers(pl):
+        # pl is a prefix of (or equal to / extends) the tracked place
+        if pl["l"] != local:
+            return False
+        if any(pr == "*" for pr in pl["p"]):
+            return False
+        n = names(pl)
+        k = min(len(n), len(proj_names))
+        return n[:k] == proj_names[:k]
+
+    ndefs = 0
+    for bi, si, st in body.stmts():
+        if st["k"] != "assign":
+            continue
+        lhs = st["lhs"]
+        if covers(lhs):
+            if not lhs["p"]:
+                ndefs += 1
+                if ndefs > 1:
+                    return True
+            else:
+                return True
+        rv = st["rv"]
+        if rv["k"] in ("ref", "rawptr") and rv.get("mut") in (True, "Mut") and covers(rv["p"]):
+            tmp = lhs["l"]
+            if lhs["p"]:
+                return True
+            used = False
+            for bj, t in body.calls():
+                for a in t["args"]:
+                    q = op_place(a)
+                    if q and q["l"] == tmp:
+                        used = True
+                        if not any(ix.callee(t).endswith(x) for x in allow_calls):
+                            return True
+            for bj, sj, s2 in body.stmts():
+                if s2["k"] != "assign" or s2 is st:
+                    continue
+                r2 = s2["rv"]
+                cand = []
+                if r2["k"] in ("use", "cast", "un", "repeat"):
+                    cand = [r2["a"]]
+                elif r2["k"] == "bin":
+                    cand = [r2["a"], r2["b"]]
+                elif r2["k"] == "agg":
+                    cand = r2["ops"]
+                elif r2["k"] in ("ref", "rawptr"):
+                    if r2["p"]["l"] == tmp:
+                        return True
+                for a in cand:
+                    q = op_place(a)
+                    if q and q["l"] == tmp:
+                        return True
+    for bj, t in body.calls():
+        d = t.get("dest")
+        if d and covers(d):
+            if not d["p"]:
+                ndefs += 1
+                if ndefs > 1:
+                    return True
+            else:
+                return True
+    return False
+
+
+PARSE_PASS = ("Try>::branch", "::ok", "::unwrap", "::expect", "::ok_or", "::map_err", "::unwrap_or_default")
+
+
+def parsed_by_binrw(ix, local, depth=0):
+    """Is the local the (unwrapped) result of a binrw read call?"""
+    if depth > 8:
+        return False
+    d = ix.single_def(local)
+    if not d:
+        return False
+    if d[0] == "assign":
+        rv = d[3]["rv"]
+        if rv["k"] == "use":
+            q = op_place(rv["a"])
+            if q is None or any(pr == "*" for pr in q["p"]):
+                return False
+            return parsed_by_binrw(ix, q["l"], depth + 1)
+        return False
+    t = d[3]
+    c = ix.callee(t)
+    if "binrw::BinRead" in c or "binrw::BinReaderExt" in c:
+        return True
+    if any(c.endswith(x) for x in PARSE_PASS) and t["args"]:
+        q = op_place(t["args"][0])
+        if q is None or q["p"]:
+            return False
+        return parsed_by_binrw(ix, q["l"], depth + 1)
+    return False
+
+
+def field_place(ix, op):
+    """(base_local, [field names], adt_of_last_field) of the container place an operand refers to (through refs and
+    copies), or None."""
+    p = op_place(op)
+    depth = 0
+    while p is not None and depth < 8:
+        depth += 1
+        if p["p"]:
+            fl = [pr for pr in p["p"] if isinstance(pr, dict) and "f" in pr]
+            if len(fl) != len(p["p"]) or not fl or "n" not in fl[-1]:
+                return None
+            return p["l"], [pr.get("n", pr["f"]) for pr in fl], fl[-1].get("a")
+        d = ix.single_def(p["l"])
+        if not d or d[0] != "assign":
+            return None
+        rv = d[3]["rv"]
+        if rv["k"] == "ref":
+            p = rv["p"]
+        elif rv["k"] == "use":
+            p = op_place(rv["a"])
+        else:
+            return None
+    return None
+
+
+def binrw_count_discharge(ix, cont, idx):
+    """D7: `v.field[i]` where `field: Vec<_>` is declared `#[br(count = N)]` (N literal or sibling field) on a value
+    freshly parsed by binrw and not modified since."""
+    fp = field_place(ix, cont)
+    if not fp:
+        return None
+    base, names, adt = fp
+    fact = ACTX["counts"].get((adt, names[-1]))
+    if not fact:
+        return None
+    if not parsed_by_binrw(ix, base):
+        return None
+    if place_prefix_touched(ix, base, names):
+        return None
+    return _count_index(ix, base, names, fact, idx, "a freshly parsed, unmodified value")
+
+
+def adt_only_parsed(adt, fields):
+    """Whole-crate fact: values of `adt` are only ever built by derive-generated (binrw) code, and no user code assigns
+    or mutably borrows the given fields of any such value."""
+    prog = ACTX.get("prog")
+    key = (adt, tuple(sorted(fields)))
+    memo = ACTX.setdefault("only_parsed", {})
+    if key in memo:
+        return memo[key]
+    ok = prog is not None
+    if ok:
+        for name, b in prog.bodies.items():
+            for bi, si, st in b.stmts():
+                if st["k"] != "assign":
+                    continue
+                rv = st["rv"]
+                user = is_user_span(st["sp"])
+                if rv["k"] == "agg" and rv.get("ak") == "adt" and rv.get("adt") == adt and user:
+                    ok = False
+                for pl, is_write in ((st["lhs"], True), (rv.get("p") if rv["k"] in ("ref", "rawptr") and rv.get("mut") in (True, "Mut") else None, True)):
+                    if pl is None:
+                        continue
+                    for pr in pl["p"]:
+                        if isinstance(pr, dict) and pr.get("a") == adt and pr.get("n") in fields and user:
+                            ok = False
+            if not ok:
+                break
+    memo[key] = ok
+    return ok
+
+
+def binrw_count_shared(ix, cont, idx):
+    """D7 for a value behind a shared reference (`&T` parameter or a reference obtained from one): `t.field[i]` with
+    `field` declared `#[br(count = sibling)]`, `i` ranging over `0..t.sibling`, where values of T are only ever produced
+    by the binrw reader and the two fields are never written by user code anywhere in the crate."""
+    p = op_place(cont)
+    for _ in range(6):
+        if p is None:
+            return None
+        if p["p"]:
+            break
+        d = ix.single_def(p["l"])
+        if not d or d[0] != "assign":
+            return None
+        rv = d[3]["rv"]
+        p = rv["p"] if rv["k"] == "ref" else op_place(rv["a"]) if rv["k"] == "use" else None
+    if p is None or not p["p"] or p["p"][0] != "*":
+        return None
+    fl = p["p"][1:]
+    if len(fl) != 1 or not isinstance(fl[0], dict) or "n" not in fl[0]:
+        return None
+    ty = ix.body.j["locals"][p["l"]]["ty"]
+    if not ty.startswith("&") or ty.startswith("&mut"):
+        return None
+    adt, vecf = fl[0].get("a"), fl[0]["n"]
+    fact = ACTX["counts"].get((adt, vecf))
+    if not fact or fact[0] != "field":
+        return None
+    rl = loop_var(ix, idx)
+    if not rl:
+        return None
+    hk = widening_leaf(ix, rl[1])
+    want = ("pl", place_desc(ix, {"c": {"l": p["l"], "p": ["*", {"f": 0, "n": fact[1]}], "ty": ""}}))
+    if hk != want:
+        return None
+    if not adt_only_parsed(adt, [vecf, fact[1]]):
+        return None
+    return f"D7 induction variable bounded by `{fact[1]}`, the binrw `count` of this Vec, on a shared reference to a {adt} (only built by its reader, fields never written)"
+
+
+def _count_index(ix, base, names, fact, idx, what):
+    r = ix.resolve(idx)
+    if fact[0] == "const":
+        if r[0] == "const" and 0 <= r[1] < fact[1]:
+            return f"D7 constant index below the binrw `count = {fact[1]}` of {what}"
+        rl = loop_var(ix, idx)
+        if rl:
+            lo, hi = ix.resolve(rl[0]), ix.resolve(rl[1])
+            if hi[0] == "const" and hi[1] <= fact[1]:
+                return f"D7 induction variable of a constant range within the binrw `count = {fact[1]}`"
+        return None
+    if fact[0] == "field":
+        rl = loop_var(ix, idx)
+        if not rl:
+            return None
+        hk = widening_leaf(ix, rl[1])
+        want = ("pl", place_desc(ix, {"c": {"l": base, "p": [{"f": 0, "n": n} for n in names[:-1] + [fact[1]]], "ty": ""}}))
+        if hk == want and not place_prefix_touched(ix, base, names[:-1] + [fact[1]]):
+            return f"D7 induction variable bounded by the sibling field `{fact[1]}` that is the binrw `count` of this Vec (freshly parsed, unmodified)"
+    return None
+
+
+def stable_value(ix, op, depth=0):
+    """Is the operand read from storage that is written once (single-definition locals, fields of values that are never
+    re-assigned or mutably borrowed, shared-reference parameters)?  Two reads of such an operand see the same value."""
+    if depth > 10:
+        return False
+    if const_int(op) is not None:
+        return True
+    p = op_place(op)
+    if p is None:
+        return False
+    names = []
+    for pr in p["p"]:
+        if pr == "*":
+            ty = ix.body.j["locals"][p["l"]]["ty"]
+            if not ty.startswith("&") or ty.startswith("&mut"):
+                return False
+            continue
+        if isinstance(pr, dict) and "f" in pr:
+            names.append(pr.get("n", pr["f"]))
+        elif isinstance(pr, dict) and "d" in pr:
+            continue
+        else:
+            return False
+    l = p["l"]
+    if place_prefix_touched(ix, l, names if "*" not in p["p"] else []):
+        return False
+    if 1 <= l <= ix.body.argc:
+        return True
+    d = ix.single_def(l)
+    if d is None:
+        return False
+    if d[0] == "call":
+        return True
+    rv = d[3]["rv"]
+    if rv["k"] in ("use", "cast"):
+        return stable_value(ix, rv["a"], depth + 1)
+    if rv["k"] == "ref":
+        return stable_value(ix, {"c": rv["p"]}, depth + 1)
+    return True
+
+
+def from_elem_discharge(ix, s, cont, idx):
+    """D3: `v[i]` where `v = vec![x; n]` (never resized) and `i` ranges over `0..n`."""
+    p = op_place(cont)
+    # the container operand is `&v` / `&mut v` of a plain local
+    cur = p
+    L = None
+    for _ in range(4):
+        if cur is None or cur["p"]:
+            return None
+        d = ix.single_def(cur["l"])
+        if d and d[0] == "assign" and d[3]["rv"]["k"] in ("ref",) and not d[3]["rv"]["p"]["p"]:
+            L = d[3]["rv"]["p"]["l"]
+            break
+        if d and d[0] == "assign" and d[3]["rv"]["k"] == "use":
+            cur = op_place(d[3]["rv"]["a"])
+            continue
+        return None
+    if L is None:
+        return None
+    dv = ix.single_def(L)
+    if not dv or dv[0] != "call" or not ix.callee(dv[3]).endswith("vec::from_elem"):
+        return None
+    if not ix.body.dominates(dv[1], s.bb):
+        return None
+    rl = loop_var(ix, idx)
+    if not rl:
+        return None
+    nonneg = const_int(rl[0]) is not None and const_int(rl[0]) >= 0
+    n_key = widening_leaf(ix, dv[3]["args"][1], signed_ok=nonneg)
+    h_key = widening_leaf(ix, rl[1], signed_ok=nonneg)
+    if n_key is None or n_key != h_key:
+        return None
+    if not stable_value(ix, dv[3]["args"][1]) or not stable_value(ix, rl[1]):
+        return None
+    if place_prefix_touched(ix, L, []):
+        return None
+    return "D3 induction variable of 0..n indexing vec![_; n] that is never resized"
+
+
+
+def len_bounded(ix, op, depth=0):
+    """Is the operand at most len() of some existing data: len(), or such a value reduced by -, /, >>, min, or a cast?"""
+    if depth > 8:
+        return False
+    if len_of(ix, op):
+        return True
+    r = ix.resolve(op)
+    if r[0] == "cast":
+        return len_bounded(ix, r[1]["a"], depth + 1)
+    if r[0] == "call":
+        c = ix.callee(r[1])
+        if c.endswith("cmp::min") or c.endswith("::min"):
+            return any(len_bounded(ix, a, depth + 1) for a in r[1]["args"])
+        if c.endswith("::checked_sub") or c.endswith("::saturating_sub") or c.endswith("::wrapping_div") or c.endswith("::checked_div"):
+            return len_bounded(ix, r[1]["args"][0], depth + 1)
+        if any(c.endswith(x) for x in ("::unwrap", "::unwrap_or", "::unwrap_or_default", "::expect", "Try>::branch", "::ok_or", "::ok")):
+            return len_bounded(ix, r[1]["args"][0], depth + 1)
+        return False
+    if r[0] == "rv" and r[1]["k"] == "bin" and r[1]["op"].replace("WithOverflow", "") in ("Sub", "Div", "Shr", "Rem", "BitAnd"):
+        return len_bounded(ix, r[1]["a"], depth + 1)
+    if r[0] == "place":
+        pl = r[1]
+        # (checked op).0  /  (Option as Some).0 / (ControlFlow as Continue).0
+        d = ix.single_def(pl["l"])
+        if d and d[0] == "assign" and d[3]["rv"]["k"] == "bin" and d[3]["rv"]["op"] in ("SubWithOverflow",):
+            return len_bounded(ix, d[3]["rv"]["a"], depth + 1)
+        if d and d[0] == "call" and any(isinstance(pr, dict) and pr.get("n") in ("Some", "Ok", "Continue") for pr in pl["p"]):
+            return len_bounded(ix, {"c": {"l": pl["l"], "p": [], "ty": ""}}, depth + 1)
+    return False
+
+
+ALLOC_CAP = 4 << 20  # a fixed few MiB regardless of input is not "out of proportion"
+
+
+def alloc_count_bound(ix, op, depth=0):
+    """Strict upper bound of an allocation count that is a (converted) 8/16-bit unsigned value."""
+    if depth > 6:
+        return None
+    ub = upper_bound(ix, op)
+    if ub is not None:
+        return ub
+    r = ix.resolve(op)
+    if r[0] == "call" and ix.callee(r[1]).endswith("::into") and r[1]["args"]:
+        ga = (r[1]["f"].get("k") or {}).get("ga", [])
+        if ga and ga[0] in ("u8", "u16"):
+            return 1 << INT_BITS[ga[0]]
+        return alloc_count_bound(ix, r[1]["args"][0], depth + 1)
+    return None
 
 
 def upper_bound(ix, op, depth=0):
@@ -552,6 +1049,19 @@ def discharge(ix, s):
                     d = ix.resolve(x)
                     if d[0] == "const" and d[1] != 0:
                         return "D2 non-zero constant divisor"
+                    if d[0] == "cast" and d[3][0] == "call":
+                        d = d[3]  # value-preserving for the small sizes accepted below
+                    if d[0] == "call" and ix.callee(d[1]).endswith("mem::size_of"):
+                        ga = (d[1]["f"].get("k") or {}).get("ga", [])
+                        sz = type_size(ga[0]) if ga else None
+                        if sz and sz < 256:
+                            return f"D2 divisor is size_of::<{ga[0]}>() = {sz}"
+                    if d[0] == "local":
+                        # a local assigned on several branches, every time a non-zero constant (if c {8} else {16})
+                        dd = ix.defs.get(d[1], [])
+                        vals = [const_int(x[3]["rv"]["a"]) if x[0] == "assign" and not x[3]["lhs"]["p"] and x[3]["rv"]["k"] == "use" else None for x in dd]
+                        if dd and all(v is not None and v != 0 for v in vals):
+                            return f"D2 divisor is one of the non-zero constants {sorted(set(vals))}"
             return None
         if s.detail in ("Div", "Rem"):
             d = ix.resolve(ops[1])
@@ -569,6 +1079,46 @@ def discharge(ix, s):
                 da = place_desc(ix, a)
                 if da and any(place_desc(ix, x) == da for x in rb[1]["args"]):
                     return "D4 subtrahend is min(minuend, _)"
+            # (x + c1) - c2 with c1 >= c2 on an unsigned type: the checked addition comes first
+            cb0 = ix.resolve(b)
+            pa0 = op_place(a)
+            if cb0[0] == "const" and pa0 is not None and not pa0["p"] and pa0["ty"].startswith("u"):
+                da = ix.single_def(pa0["l"])
+                if da and da[0] == "assign" and da[3]["rv"]["k"] == "use":
+                    q = op_place(da[3]["rv"]["a"])
+                    if q and len(q["p"]) == 1 and isinstance(q["p"][0], dict) and q["p"][0].get("f") == 0:
+                        dq = ix.single_def(q["l"])
+                        if dq and dq[0] == "assign" and dq[3]["rv"]["k"] == "bin" and dq[3]["rv"]["op"] == "AddWithOverflow":
+                            for x in (dq[3]["rv"]["a"], dq[3]["rv"]["b"]):
+                                cx = ix.resolve(x)
+                                if cx[0] == "const" and cx[1] >= cb0[1] >= 0:
+                                    return "D4 (x + c1) - c2 with c1 >= c2 on an unsigned operand"
+            # x - c dominated by a comparison that implies x >= c  (x != 0, x > k, x >= k)
+            if cb0[0] == "const" and cb0[1] >= 1 and pa0 is not None and pa0["ty"].startswith("u"):
+                ak = expr_key(ix, a, casts=True)
+                c_ = cb0[1]
+                hit = []
+
+                def pred_ge(dop, val, par):
+                    r = ix.resolve(dop)
+                    if not (r[0] == "rv" and r[1]["k"] == "bin" and r[1]["op"] in ("Eq", "Ne", "Gt", "Ge", "Lt", "Le")):
+                        return False
+                    op_ = r[1]["op"]
+                    x, y = r[1]["a"], r[1]["b"]
+                    is_true = val == 1 or (isinstance(val, tuple) and val[0] == "not" and val[1] == (0,))
+                    is_false = val == 0
+                    ok_ = False
+                    if expr_key(ix, x, casts=True) == ak:
+                        cy = ix.resolve(y)
+                        if cy[0] == "const":
+                            k = cy[1]
+                            ok_ = (op_ == "Eq" and k == 0 and c_ == 1 and is_false) or (op_ == "Ne" and k == 0 and c_ == 1 and is_true) or (op_ == "Gt" and k >= c_ - 1 and is_true) or (op_ == "Ge" and k >= c_ and is_true) or (op_ == "Lt" and k >= c_ and is_false) or (op_ == "Le" and k >= c_ - 1 and is_false)
+                    if ok_:
+                        hit.append(par)
+                    return ok_
+
+                if ak and guard_dominates(ix, s.bb, pred_ge) and unchanged_between(ix, hit[-1], s.bb, _key_locals(ak, set())):
+                    return "D4 x - c under a dominating comparison that implies x >= c"
             # len(x) - 1 dominated by !is_empty(x)
             la = len_of(ix, a)
             cb = ix.resolve(b)
@@ -600,6 +1150,8 @@ def discharge(ix, s):
             if c.endswith("TryInto<U>>::try_into") or c.endswith("::try_into"):
                 ga = (r[1]["f"].get("k") or {}).get("ga", [])
                 m = re.match(r"^\[u8; (\d+)\]$", ga[1]) if len(ga) > 1 else None
+                if m and const_slice_len(ix, r[1]["args"][0]) == int(m.group(1)):
+                    return "D5 try_into from a constant-width sub-slice into an array of that width"
                 src = ix.resolve(r[1]["args"][0])
                 if m and src[0] == "call" and ix.callee(src[1]).endswith("::index"):
                     rg = ix.resolve(src[1]["args"][1])
@@ -641,6 +1193,15 @@ def discharge(ix, s):
                 if d and d[0] == "assign" and d[3]["rv"]["k"] == "bin" and d[3]["rv"]["op"].startswith("Sub"):
                     if len_of(ix, d[3]["rv"]["a"]) == cdesc and const_int(d[3]["rv"]["b"]) is not None:
                         return "D3 induction variable bounded by len() - k of the same container (the subtraction is a separate site)"
+        g4 = lt_len_guard(ix, s, cont, idx)
+        if g4:
+            return g4
+        d7 = binrw_count_discharge(ix, cont, idx) or binrw_count_shared(ix, cont, idx)
+        if d7:
+            return d7
+        d3 = from_elem_discharge(ix, s, cont, idx)
+        if d3:
+            return d3
         # ranges
         if r[0] == "rv" and r[1]["k"] == "agg":
             adt = r[1].get("adt", "")
@@ -684,9 +1245,26 @@ def discharge(ix, s):
                 return "D6 constant allocation size"
             if len_of(ix, ops[argi]):
                 return "D6 allocation size is len() of existing data"
+            if len_bounded(ix, ops[argi]):
+                return "D6 allocation size is computed from len() of existing data by subtraction / division / min only"
+            ub = alloc_count_bound(ix, ops[argi])
+            if ub is not None:
+                t = body.term(s.bb)
+                ga = (t["f"].get("k") or {}).get("ga", [])
+                esz = type_size(ga[0]) if ga else None
+                if esz is not None and ub * max(esz, 1) <= ALLOC_CAP:
+                    return f"D6 allocation bounded by the width of its count: at most {ub} x {esz} bytes"
+        return None
+    if k == "assert-other":
+        if ("NullPointerDereference" in s.detail or "MisalignedPointerDereference" in s.detail) and s.macros and s.macros[-1] == "Bang:vec" and not ACTX.get("local_vec_macro"):
+            return "D10 debug-build pointer check on the freshly boxed array inside std's vec! expansion (allocator pointers are non-null and aligned)"
         return None
     if k == "slice-pre":
         last = s.detail.split("::")[-1]
+        if last in ("clone_from_slice", "copy_from_slice") and len(ops) >= 2:
+            a, b = const_slice_len(ix, ops[0]), const_slice_len(ix, ops[1])
+            if a is not None and a == b:
+                return f"D10 both slices have the constant length {a}"
         if last in ("chunks", "chunks_exact", "chunks_mut", "windows", "step_by") and len(ops) >= 2:
             r = ix.resolve(ops[1])
             if r[0] == "const" and r[1] != 0:
@@ -746,9 +1324,12 @@ def index_shape(ix, s):
     return "[_]"
 
 
-def analyse(prog, entry_defs):
+def analyse(prog, entry_defs, counts=None, wire=None):
     """Full PANIC analysis: sites with discharges and final keys."""
     sites, reach, parent, defs = scan(prog, entry_defs)
+    ACTX["prog"] = prog
+    ACTX["counts"] = counts or {}
+    ACTX["wire"] = wire
     cache = {}
     out = []
     for s, n in sites:
@@ -771,9 +1352,10 @@ def analyse(prog, entry_defs):
     return out, reach, parent, defs
 
 
-def expr_key(ix, op, depth=0):
-    """Canonical structural key of a scalar operand (consts, places, +,-,*, casts), for comparing two operands."""
-    if depth > 6:
+def expr_key(ix, op, depth=0, casts=False, limit=6):
+    """Canonical structural key of a scalar operand (consts, places, +,-,*, casts), for comparing two operands.
+    casts=True keeps every cast that is not an unsigned widening in the key (two equal keys then mean equal values)."""
+    if depth > limit:
         return None
     v = const_int(op)
     if v is not None:
@@ -787,7 +1369,7 @@ def expr_key(ix, op, depth=0):
             d = ix.single_def(p["l"])
             if d and d[0] == "assign" and d[3]["rv"]["k"] == "bin" and d[3]["rv"]["op"].endswith("WithOverflow"):
                 rv = d[3]["rv"]
-                return (rv["op"][: -len("WithOverflow")], expr_key(ix, rv["a"], depth + 1), expr_key(ix, rv["b"], depth + 1))
+                return (rv["op"][: -len("WithOverflow")], expr_key(ix, rv["a"], depth + 1, casts, limit), expr_key(ix, rv["b"], depth + 1, casts, limit))
         return ("pl", place_desc(ix, op))
     l = p["l"]
     if 1 <= l <= ix.body.argc:
@@ -802,15 +1384,139 @@ def expr_key(ix, op, depth=0):
         return ("pl", f"_{l}")
     rv = d[3]["rv"]
     if rv["k"] == "use":
-        return expr_key(ix, rv["a"], depth + 1)
+        return expr_key(ix, rv["a"], depth + 1, casts, limit)
     if rv["k"] == "cast":
-        return expr_key(ix, rv["a"], depth + 1)
+        inner = expr_key(ix, rv["a"], depth + 1, casts, limit)
+        if casts:
+            fb, tb = INT_BITS.get(rv.get("from")), INT_BITS.get(rv.get("to"))
+            if not (fb and tb and rv["from"].startswith("u") and tb >= fb and (tb > fb or rv["to"].startswith("u"))):
+                return ("cast", rv.get("from"), rv.get("to"), inner)
+        return inner
     if rv["k"] == "bin":
-        return (rv["op"].replace("WithOverflow", ""), expr_key(ix, rv["a"], depth + 1), expr_key(ix, rv["b"], depth + 1))
+        return (rv["op"].replace("WithOverflow", ""), expr_key(ix, rv["a"], depth + 1, casts, limit), expr_key(ix, rv["b"], depth + 1, casts, limit))
     return ("pl", f"_{l}")
 
 
-def requires_ne_len_guard(ix, s):
+def _key_locals(k, out):
+    if isinstance(k, tuple):
+        if k and k[0] == "pl" and isinstance(k[1], str):
+            m = re.match(r"^_(\d+)", k[1])
+            if m:
+                out.add(int(m.group(1)))
+        else:
+            for x in k:
+                _key_locals(x, out)
+    return out
+
+
+def unchanged_between(ix, guard_bb, site_bb, locals_):
+    """Straight-line check: walking back from the site through unique predecessors reaches the guard block without any
+    statement that assigns or mutably borrows one of the locals (multi-definition locals such as loop counters)."""
+    body = ix.body
+    multi = {l for l in locals_ if ix.single_def(l) is None and not (1 <= l <= body.argc)}
+    if not multi:
+        return True
+    cur = site_bb
+    for _ in range(64):
+        if cur != guard_bb:
+            blk = body.blocks[cur]
+            for st in blk["s"]:
+                if st["k"] == "assign":
+                    if st["lhs"]["l"] in multi:
+                        return False
+                    rv = st["rv"]
+                    if rv["k"] in ("ref", "rawptr") and rv.get("mut") in (True, "Mut") and rv["p"]["l"] in multi:
+                        return False
+            t = blk["t"]
+            if cur != site_bb and t["k"] == "call" and t.get("dest") and t["dest"]["l"] in multi:
+                return False
+        else:
+            return True
+        ps = [p_ for p_ in body.pred(cur) if not body.blocks[p_]["cleanup"]]
+        if len(ps) != 1:
+            return False
+        cur = ps[0]
+        t = body.blocks[cur]["t"]
+        if cur != guard_bb and t["k"] == "call" and t.get("dest") and t["dest"]["l"] in multi:
+            return False
+    return False
+
+
+def lt_len_guard(ix, s, cont, idx):
+    """D4: `v[e]` dominated by the true edge of `e < v.len()` (or the false edge of `e >= v.len()`), with `e` and `v`
+    unchanged in between."""
+    cdesc = place_desc(ix, cont)
+    ek = expr_key(ix, idx, casts=True)
+    if not cdesc or not ek or ek[0] == "c":
+        return None
+    hit = []
+
+    def pred(dop, val, par):
+        r = ix.resolve(dop)
+        if not (r[0] == "rv" and r[1]["k"] == "bin" and r[1]["op"] in ("Lt", "Ge", "Gt", "Le")):
+            return False
+        a, b, op_ = r[1]["a"], r[1]["b"], r[1]["op"]
+        if op_ in ("Lt", "Ge") and expr_key(ix, a, casts=True) == ek and len_of(ix, b) == cdesc:
+            want_true = op_ == "Lt"
+        elif op_ in ("Gt", "Le") and expr_key(ix, b, casts=True) == ek and len_of(ix, a) == cdesc:
+            want_true = op_ == "Gt"
+        else:
+            return False
+        is_true = val == 1 or (isinstance(val, tuple) and val[0] == "not" and val[1] == (0,))
+        is_false = val == 0
+        if (want_true and is_true) or (not want_true and is_false):
+            hit.append(par)
+            return True
+        return False
+
+    if not guard_dominates(ix, s.bb, pred):
+        return None
+    if not unchanged_between(ix, hit[-1], s.bb, _key_locals(ek, set())):
+        return None
+    if not container_stable(ix, cont):
+        return None
+    return "D4 index dominated by a comparison with len() of the same container"
+
+
+def container_stable(ix, cont):
+    """The container behind an operand cannot change length in this function: it lives behind a shared-reference
+    parameter, or it is a local place that is never re-assigned or handed out mutably to a length-changing call."""
+    p = op_place(cont)
+    for _ in range(8):
+        if p is None:
+            return False
+        if any(pr == "*" for pr in p["p"]):
+            ty = ix.body.j["locals"][p["l"]]["ty"]
+            if ty.startswith("&") and not ty.startswith("&mut") and 1 <= p["l"] <= ix.body.argc:
+                return True
+            # deref of a local reference: follow the reference
+            d = ix.single_def(p["l"])
+            if not d or d[0] != "assign":
+                return False
+            rv = d[3]["rv"]
+            p = rv["p"] if rv["k"] == "ref" else op_place(rv["a"]) if rv["k"] == "use" else None
+            continue
+        if p["p"] or not ix.single_def(p["l"]) or 1 <= p["l"] <= ix.body.argc:
+            names = [pr.get("n", pr["f"]) for pr in p["p"] if isinstance(pr, dict) and "f" in pr]
+            return not place_prefix_touched(ix, p["l"], names)
+        d = ix.single_def(p["l"])
+        if d[0] == "call":
+            c = ix.callee(d[3])
+            if any(c.endswith(x) for x in ("Deref::deref", "::deref", "::as_slice", "::as_ref", "::as_bytes", "::as_str")) and d[3]["args"]:
+                p = op_place(d[3]["args"][0])
+                continue
+            return not place_prefix_touched(ix, p["l"], [])
+        rv = d[3]["rv"]
+        if rv["k"] == "ref":
+            p = rv["p"]
+        elif rv["k"] in ("use", "cast"):
+            p = op_place(rv["a"])
+        else:
+            return not place_prefix_touched(ix, p["l"], [])
+    return False
+
+
+def requires_ne_len_guard(ix, s, exc=None):
     """Exception guard: the index expression of `container[e]` is compared `e == container.len()` by a dominating
     branch whose not-equal edge leads to the site."""
     if len(s.operands) < 2:
@@ -832,4 +1538,159 @@ def requires_ne_len_guard(ix, s):
     return guard_dominates(ix, s.bb, pred)
 
 
-REQUIRES = {"ne-len-guard": requires_ne_len_guard}
+def _actual_args(ix, t, callee_is_closure):
+    """User-level argument operands of a call (closure calls pass them as one tuple)."""
+    if not callee_is_closure:
+        return list(t["args"])
+    if len(t["args"]) < 2:
+        return []
+    r = ix.resolve(t["args"][1])
+    if r[0] == "rv" and r[1]["k"] == "agg":
+        return [None] + list(r[1]["ops"])  # index 0 = the closure itself
+    return []
+
+
+def requires_const_arg(ix, s, exc):
+    """Exception guard: every call of `fn` in the crate passes, at argument `arg` (1-based, as in MIR), a constant
+    below `lt` or the counter of a constant range ending at or below `lt`; the function is called directly only."""
+    prm = exc.get("params", {})
+    fn, argi, lt = prm.get("fn"), prm.get("arg"), prm.get("lt")
+    prog = ACTX.get("prog")
+    if prog is None or fn is None or fn not in prog.bodies:
+        return False
+    is_closure = prog.bodies[fn].j.get("kind") == "Closure"
+    n = 0
+    for name, b in prog.bodies.items():
+        cix = None
+        for bi, t in b.calls():
+            if (t.get("res") or "") != fn:
+                continue
+            f = (t["f"].get("k") or {}).get("fn") or ""
+            if is_closure and not any(x in f for x in ("FnMut::call_mut", "Fn::call", "FnOnce::call_once")):
+                return False
+            cix = cix or BodyIndex(b)
+            args = _actual_args(cix, t, is_closure)
+            k = argi if is_closure else argi - 1
+            if k >= len(args) or args[k] is None:
+                return False
+            r = cix.resolve(args[k])
+            if r[0] == "const" and 0 <= r[1] < lt:
+                n += 1
+                continue
+            rl = loop_var(cix, args[k])
+            if rl:
+                lo, hi = cix.resolve(rl[0]), cix.resolve(rl[1])
+                if lo[0] == "const" and lo[1] >= 0 and hi[0] == "const" and hi[1] <= lt:
+                    n += 1
+                    continue
+            return False
+        # the function must not escape as a value (fn pointer / closure handed to an adaptor)
+        for bi, si, st in b.stmts():
+            rv = st.get("rv") or {}
+            if rv.get("reify") == fn:
+                return False
+    if is_closure:
+        # the closure value is only ever borrowed for a direct call
+        par = fn.rsplit("::{closure", 1)[0]
+        pb = prog.bodies.get(par)
+        if pb is None:
+            return False
+        pix = BodyIndex(pb)
+        cl = [st["lhs"]["l"] for _b, _s, st in pb.stmts() if st["k"] == "assign" and st["rv"]["k"] == "agg" and st["rv"].get("ak") == "closure" and st["rv"].get("closure") == fn]
+        for bi, t in pb.calls():
+            if (t.get("res") or "") == fn:
+                continue
+            for a in t["args"]:
+                q = op_place(a)
+                if q is None:
+                    continue
+                d = pix.single_def(q["l"]) if not q["p"] else None
+                tgt = q["l"]
+                if d and d[0] == "assign" and d[3]["rv"]["k"] == "ref":
+                    tgt = d[3]["rv"]["p"]["l"]
+                if tgt in cl:
+                    return False
+    return n > 0
+
+
+def requires_instances_only(ix, s, exc):
+    """Exception guard: every monomorphic instance of the (generic) function containing the site mentions `needle`
+    in its instantiation (e.g. it is only ever instantiated with std::io::Cursor)."""
+    needle = exc.get("params", {}).get("needle")
+    prog = ACTX.get("prog")
+    if prog is None or not needle:
+        return False
+    insts = [i for i in prog.instances if i.get("def") == s.fn and i.get("local")]
+    return bool(insts) and all(needle in i["name"] for i in insts)
+
+
+def source_name(ix, op):
+    """Source-level name an operand was read from: the debug name of the first named local on its copy chain, or the
+    last field name of a projected place."""
+    p = op_place(op)
+    names = ix.body.local_names()
+    for _ in range(8):
+        if p is None:
+            return None
+        fl = [pr for pr in p["p"] if isinstance(pr, dict) and "n" in pr and "f" in pr]
+        if fl:
+            return fl[-1]["n"]
+        if p["l"] in names:
+            return names[p["l"]]
+        d = ix.single_def(p["l"])
+        if not d or d[0] != "assign" or d[3]["rv"]["k"] not in ("use", "cast"):
+            return None
+        p = op_place(d[3]["rv"]["a"])
+    return None
+
+
+def requires_dominating_eq(ix, s, exc):
+    """Exception guard: the site is dominated by the true edge of a comparison `<place ending in field> == <const>`."""
+    prm = exc.get("params", {})
+    field, value = prm.get("field"), prm.get("value")
+
+    def pred(dop, val, par):
+        r = ix.resolve(dop)
+        if r[0] == "rv" and r[1]["k"] == "bin" and r[1]["op"] == "Eq":
+            for x, y in ((r[1]["a"], r[1]["b"]), (r[1]["b"], r[1]["a"])):
+                cy = ix.resolve(y)
+                nm = source_name(ix, x)
+                if cy[0] == "const" and cy[1] == value and nm == field:
+                    return val == 1 or (isinstance(val, tuple) and val[0] == "not" and val[1] == (0,))
+        return False
+
+    return guard_dominates(ix, s.bb, pred)
+
+
+def requires_sizeof_equals_wire(ix, s, exc):
+    """Exception guard: the in-memory size of a binrw struct equals the number of bytes its reader consumes, so
+    `buffer.len() - size_of::<T>()` after a successful `T::read` from the start of `buffer` cannot underflow."""
+    prm = exc.get("params", {})
+    prog, wire = ACTX.get("prog"), ACTX.get("wire")
+    if prog is None or wire is None:
+        return False
+    from . import wire as W
+
+    wm = W.WireModel(wire, prog)
+    it = wm.find_item(prm.get("item", ""))
+    adt = prog.adts.get(prm.get("adt", ""))
+    if not it or not adt:
+        return False
+    try:
+        ws = wm.item_size(it)
+    except Exception:
+        return False
+    if not (isinstance(ws, int) and ws == int(adt.get("size", -1))):
+        return False
+    # the subtraction is size_of::<adt>() from len() of the parameter, after the read of that type
+    t = ix.body.term(s.bb)
+    ops = t.get("mops", [])
+    if len(ops) != 2:
+        return False
+    rb = ix.resolve(ops[1])
+    okb = rb[0] == "call" and ix.callee(rb[1]).endswith("mem::size_of") and ((rb[1]["f"].get("k") or {}).get("ga") or [None])[0] == prm.get("adt")
+    reads = [bi for bi, tt in ix.body.calls() if "BinRead" in ix.callee(tt) and prm.get("adt") in " ".join((tt["f"].get("k") or {}).get("ga", []))]
+    return okb and len_of(ix, ops[0]) is not None and any(ix.body.dominates(bi, s.bb) for bi in reads)
+
+
+REQUIRES = {"sizeof-equals-wire": requires_sizeof_equals_wire, "ne-len-guard": requires_ne_len_guard, "const-arg": requires_const_arg, "instances-only": requires_instances_only, "dominating-eq": requires_dominating_eq}
